@@ -197,4 +197,37 @@ PROPS = {
         "assumes": ["lock ids identify their holder (ids are random int64 chosen by the replica)", "NoCollision: a position determines a history"],
         "trusted_base": ["Model/Halt.v hand-written; tie = cases_c13_*.v; Model/Locks.v over Gen/RWMutexGen.v"],
     },
+    "C07": {
+        "gen": ["ConstsGen.v"], "props_file": "Props/C07.v", "coq_targets": ["Props/C07.v"],
+        "level_text": "Proof (full on the model for quiet nodes; one runtime window partial): for every sequence of application-level operations (page write, database truncate, journal commit by delete / truncate / header overwrite, WAL header write, WAL truncate / remove, WAL commit at unlock, checkpoint, drop, import) on a node without write authority and without WAL content of its own, the view (logical pages 1..pageN, position, transaction log, size, journal mode) is unchanged and every operation that would change it is refused; a commit step (journal, WAL, drop, import) that begins after write authority is lost is refused and publishes nothing in ANY state; page, journal and WAL writes are answered EACCES and no handler that changes the database answers success (Props/C07.v). "
+                      "Tie: the real FUSE node and handle methods of a replica are called in-process (VerifNewUnmounted, no kernel mount) for every handler x pager-protocol lock state (none / SHARED / RESERVED / EXCLUSIVE) x journal mode in shuffled order, plus POST /import; before/after the harness compares database bytes, position and LTX listing, the errno with the handler table, and replays the replica's life (received files, then the operations) on the PageDB model; a primary is demoted or loses its lease between the last page write and the commit step of a local transaction (rollback journal and WAL) and must publish nothing.",
+        "level_note": "Trusted: Coq kernel, go2coq (constants), harness. The FUSE kernel protocol itself is not exercised (handlers are called directly). Not covered: a demoted primary that still has un-checkpointed WAL frames, in the window before role-change recovery runs - TruncateWAL / RemoveWAL are not gated by the code there and the model's [quiet] excludes it. A WAL commit step after loss of authority ends in Exit(99) by design (refused, not published).",
+        "technique": "Coq proof over the PageDB operation model + handler errno table + vm_compute correspondence + in-process FUSE handler harness with before/after diff",
+        "rule": "2 (quick) / 10 (thorough) clusters x 2 databases (journal, WAL) x 12 handlers x 4 lock states (two thirds sampled in quick) + imports + 4 / 24 mid-transaction demotions; distinct = (handler, mode, lock state) and demotion kind; non-trivial = errno, bytes, position and log compared",
+        "explanation": "The theorem covers all operation sequences; the harness shows the handlers realise the gates.",
+        "assumes": ["a replica's own WAL is empty between stream applies (role change checkpoints it)"],
+        "trusted_base": ["Model/PageDB.v, Model/ReadOnly.v hand-written; tie = cases_c07_*.v, cases_c07h_*.v"],
+    },
+    "C05": {
+        "gen": ["ConstsGen.v"], "props_file": "Props/C05.v", "coq_targets": ["Props/C05.v"],
+        "level_text": "Proof (rollback-journal commit, replica apply, snapshot: full on the durable-state model; WAL commit / checkpoint / drop: oracle only): for every consistent disk, every transaction program in which a page of the original file is journaled with its original content before it is overwritten (any interleaving, any number of spills, growth and shrink), a transaction file that applied to the previous image gives the new image and carries every appended page (C02), and EVERY prefix of the durable step list, Open's recovery (roll the hot journal back, re-apply the newest file) yields exactly the image before or the image after and the position of the newest transaction file - decided by the rename alone; the same for a replica applying a streamed file and a snapshot; recovery leaves no hot journal and is idempotent (Props/C05.v). "
+                      "Tie: the data directory is copied at every call through the injectable OS layer and at every internal page write / file truncate (verif hook) during local commits in the three journal modes (first transaction, grow, shrink, spill beyond the final size, rollback before / after spill, lock-only), WAL commits, application and LiteFS checkpoints, mode switches, drops, and on a replica during a snapshot apply and incremental applies; a fresh store is opened on EVERY copy: Open succeeds, position = newest valid LTX file = position before or after the operation, image and from-scratch checksum = the reference image of that position, no hot journal, no WAL content, a result that was returned is not lost, a follow-up commit works; each journal-mode crash directory is also encoded as the model's [disk] and [recover] is compared with what the real Open produced.",
+        "level_note": "Trusted: Coq kernel, harness (its journal parser reads the journals its own pager wrote). Process death only: completed writes are assumed in the page cache and ordered; power loss / torn pages / fsync ordering are not modelled. Crash points inside journal record writes and LTX encoding (file-handle writes that do not pass the OS layer) are not enumerated, as the property's quantifier defines. WAL-mode recovery (WAL trimmed to the newest LTX, checkpoint) has no theorem.",
+        "technique": "Coq proof over all prefixes of the durable step lists (crash refinement) + vm_compute correspondence of recover with the real Open on every crash directory + crash-point enumeration oracle",
+        "rule": "4 (quick) / 30 (thorough) local histories of 9-13 operations + 2 / 12 replica scenarios; every step boundary of every operation is one crash point (about 650 quick, 5000 thorough); distinct = operation shape; non-trivial = a store was opened on the copy and position, image, checksum, journal and WAL were checked",
+        "explanation": "The theorem covers all transaction shapes and all crash points; the enumeration ties recover to Open and covers the WAL paths.",
+        "assumes": ["SQLite journals a page with its original content before overwriting it", "process death (no power loss)"],
+        "trusted_base": ["Model/Crash.v hand-written; tie = cases_c05_*.v"],
+    },
+    "C08": {
+        "gen": [], "props_file": "Props/C08.v", "coq_targets": ["Props/C08.v"],
+        "level_text": "Proof (full on the two decision functions; wall-clock and the Consul mapping partial): for every combination of answers of the lease service, one iteration of the election loop never calls Acquire on a non-candidate (which becomes primary only through a handed-over lease), refuses a lease that carries another cluster's id without asking anything else, never lets a node without a cluster id lead an initialised cluster, makes the node primary only with a granted or handed-over lease and a follower only of a primary the service names; for every sequence of renewal answers, demotions, handoff requests and shutdown the primary's loop destroys the lease on every exit except a completed handoff, completes a handoff only for a connected target, ends the role at once when a renewal reports the lease gone, and when renewals fail ends it later than TTL and no later than TTL + 1 s after the last successful renewal (Props/C08.v). "
+                      "Tie: a real Store runs monitorLease against a scripted Leaser / Lease / Client: the cross product of the service's answers (one quarter sampled in quick) with the calls it makes and the role it takes compared with [iterate]; ten wall-clock scripts of the primary loop (TTL 3 s: expired, errors, error-then-ok, demote, handoff to a connected / unconnected subscriber / refused by the lease, shutdown) compared with [primary_run], checking IsPrimary, PrimaryCtx cancellation, Lease.Close and the time the role ends; a real three-node cluster on the simulated TTL lease service (demotion, deletion of the lease at the service, a node carrying another cluster's id).",
+        "level_note": "Trusted: Coq kernel, harness. NOT covered: the Consul leaser against a fake Consul HTTP endpoint (consul/consul.go session / KV mapping is not exercised or modelled); scheduling jitter beyond the loop's own arithmetic (tolerance 0.7 s). Observation, not counted as a violation of the property as worded: with failing renewals the node keeps the role until TTL + 1 s after its last successful renewal (off by the 1 s retry period and a final 1 s sleep), i.e. about 1 s longer than an exact-TTL lease service keeps the lease.",
+        "technique": "Coq proof by case analysis over the service's answers and by induction over renewal histories + vm_compute correspondence against a real Store on a scripted lease service",
+        "rule": "cross product of 2 x 2 x 4 x 3 x 3 x 3 x 2 answers (about 130 sampled in quick, all 700+ in thorough) + 10 primary-loop scripts + 1 / 4 cluster scenarios; distinct = answer combination / script; non-trivial = calls, role, context, lease destruction and timing were compared",
+        "explanation": "Decision theorems for all answers; the scripted service ties them to monitorLease.",
+        "assumes": ["the lease service's answers are the only inputs of the election loop"],
+        "trusted_base": ["Model/Lease.v hand-written; tie = cases_c08_*.v, cases_c08p_*.v"],
+    },
 }
